@@ -5,6 +5,7 @@ import (
 	"fmt"
 	"math/rand"
 	"strings"
+	"unicode/utf8"
 
 	"github.com/vektah/gqlparser/v2"
 	"github.com/vektah/gqlparser/v2/ast"
@@ -252,6 +253,16 @@ func checkC18(c *core.Ctx) {
 	}
 	for _, q := range handComposeDocs {
 		addDoc(handRuleSDL, q)
+	}
+	// fragments that spread each other around a conflict: what a rule sees of nodes the walk has not reached yet
+	// must not depend on which other rules run with it (a rule following spreads without observing them)
+	for _, q := range cyclicConflictDocs {
+		addDoc(adversarySDL, q)
+	}
+	for _, f := range adversaryFamilies {
+		if d := adversaryDoc(f, 3); utf8.ValidString(d) {
+			addDoc(adversarySDL, d)
+		}
 	}
 	bad, ok := RunTrace(c, TraceJob{Module: "Compose_Trace", CfgText: "SPECIFICATION Spec\nCHECK_DEADLOCK FALSE\n", Lines: lines, Events: events, Shards: 14, Stack: "256m", Heap: "3g"})
 	if !ok {
